@@ -677,7 +677,8 @@ func init() {
 	SeqFamilies["C19"] = c19Chunks
 	register(&Family{
 		Property: "C19",
-		Rule: "payload lengths {0,1,3,6} (thorough 0..9) x read/write size scripts {1,2,4,[0,1,2],[4,1]} (+8 thorough) x injected error at call {none,1,2,3} x wrapped value {plain, +Close, +WriteTo/ReadFrom, both} x total {exact, larger, smaller (cap), unknown then SetTotal(-1,true)} x moving-average decorator {absent, plain, wrapped two levels, two decorators on one bar} x driver {direct calls, io.Copy}; the underlying value advances the virtual clock by a scripted amount inside every call. " +
+		Rule: "also: WriteTo/ReadFrom of the proxy called directly with six error values and three counts, transfers that continue after the bar completed while it is still served; " +
+			"payload lengths {0,1,3,6} (thorough 0..9) x read/write size scripts {1,2,4,[0,1,2],[4,1]} (+8 thorough) x injected error at call {none,1,2,3} x wrapped value {plain, +Close, +WriteTo/ReadFrom, both} x total {exact, larger, smaller (cap), unknown then SetTotal(-1,true)} x moving-average decorator {absent, plain, wrapped two levels, two decorators on one bar} x driver {direct calls, io.Copy}; the underlying value advances the virtual clock by a scripted amount inside every call. " +
 			"Oracle: bytes, per-call counts and errors identical on both sides; Close forwarded exactly once (only if the wrapped value has it); the proxy's dynamic type offers WriteTo/ReadFrom iff the wrapped value does and io.Copy uses it; Current == bytes transferred (capped at a known total); the moving-average decorator received exactly the multiset of (n, duration) of the calls made while the bar was running. Every case is also executed on the unmodified package (digest without durations).",
 		Items: func(tier string) []Item { return seqItems("C19", tier) },
 	})
